@@ -93,7 +93,7 @@ Proof.
         destruct (parse_i64 s) as [len|] eqn:Hz; [|discriminate].
         destruct (len =? -1)%Z; [inversion H; subst; split; [reflexivity|cbn [vdepth]; lia]|].
         destruct ((len <? 0) || (MAX_BULK_STRING_SIZE <? len))%Z eqn:Hr; [discriminate|].
-        destruct (Nat.ltb_spec (length (m :: r)) (c' + Z.to_nat len + 2)); [discriminate|].
+        destruct (Z.ltb_spec (Z.of_nat (length (m :: r))) (Z.of_nat c' + len + 2)); [discriminate|].
         destruct (utf8_valid _) eqn:Hu; [|discriminate]. inversion H; subst.
         apply orb_false_elim in Hr. destruct Hr as [R1 R2]. apply Z.ltb_ge in R1, R2.
         split; [|cbn [vdepth]; lia]. cbn [wf]. rewrite Hu. cbn [andb]. apply Z.leb_le.
